@@ -1082,6 +1082,25 @@ class Inliner:
                 top = st.value
             elif isinstance(st, (ast.Assign, ast.Return)):
                 top = st.value
+            elif isinstance(st, ast.AugAssign) and isinstance(
+                    st.target, ast.Name) and isinstance(st.value, ast.Call):
+                # x += helper(..): the left operand is read after the call
+                # returns only when the target is a plain local
+                t = outer.resolve(f, st.value)
+                if t is None or _expr_form(t) is not None or \
+                        outer.splice_form(t, as_generator=False) is None:
+                    return None
+                outer.counter += 1
+                nm = 'ret__h{}'.format(outer.counter)
+                pre = ast.copy_location(ast.Assign(
+                    targets=[ast.Name(id=nm, ctx=ast.Store())],
+                    value=st.value), st)
+                rest = ast.copy_location(ast.AugAssign(
+                    target=st.target, op=st.op,
+                    value=ast.Name(id=nm, ctx=ast.Load())), st)
+                ast.fix_missing_locations(pre)
+                ast.fix_missing_locations(rest)
+                return pre, rest
             else:
                 return None
             if isinstance(top, ast.Yield):
@@ -1161,8 +1180,9 @@ class Inliner:
             elif isinstance(st, ast.Return) and \
                     isinstance(st.value, ast.Call):
                 call, mode = st.value, 'return'
-            if call is None or (mode in ('stmt', 'assign', 'return') and
-                                outer.resolve(f, call) is None):
+            if isinstance(st, ast.AugAssign) or call is None or (
+                    mode in ('stmt', 'assign', 'return') and
+                    outer.resolve(f, call) is None):
                 hoisted = hoist(st)
                 if hoisted is not None:
                     first = expand(hoisted[0])
@@ -1874,9 +1894,15 @@ def n6c_multi_use_temps(fnode, keep=()):
         # attributes / subscripts read by E must not be stored in between
         call_funcs = {id(x.func) for x in ast.walk(st.value)
                       if isinstance(x, ast.Call)}
+        local_names = set(stores) | params
         heap = [ast.unparse(x) for x in ast.walk(st.value)
                 if isinstance(x, (ast.Attribute, ast.Subscript)) and
-                id(x) not in call_funcs]
+                id(x) not in call_funcs and not (
+                    # Class.CONSTANT / module.CONSTANT: never re-bound
+                    isinstance(x, ast.Attribute) and
+                    _looks_constant_name(x.attr) and
+                    isinstance(x.value, ast.Name) and
+                    x.value.id not in local_names)]
         if heap:
             for x in _own_walk(fnode):
                 if isinstance(x, (ast.Attribute, ast.Subscript)) and \
@@ -1996,11 +2022,27 @@ def n6_single_use_temps(fnode, keep=()):
                             tgt = stmts[j]
                             # inside a loop / comprehension the expression
                             # would be re-evaluated: only straight-line use
-                            ok = len(uses) == 1 and (not isinstance(
+                            # a constant expression (no names, no calls)
+                            # may be re-evaluated on every iteration
+                            const_expr = not any(isinstance(x, (
+                                ast.Name, ast.Call, ast.Attribute,
+                                ast.Yield, ast.Await, ast.NamedExpr))
+                                for x in ast.walk(st.value))
+                            ok = len(uses) == 1 and (const_expr or not isinstance(
                                 tgt, (ast.For, ast.While, ast.AsyncFor)) or (
                                 isinstance(tgt, ast.For) and any(
                                     x is uses[0]
                                     for x in ast.walk(tgt.iter))))
+                            if ok and const_expr and isinstance(
+                                    tgt, (ast.For, ast.While, ast.If,
+                                          ast.With, ast.Try)):
+                                env = {v: st.value}
+                                stmts[j] = _subst_stmt(tgt, env)
+                                ast.copy_location(stmts[j], tgt)
+                                del stmts[i]
+                                changed[0] = True
+                                i -= 1
+                                break
                             if ok and isinstance(tgt, (ast.If, ast.With,
                                                        ast.Try)):
                                 # allowed only in the header expression
@@ -2133,6 +2175,24 @@ def n9_restore_statements(fnode, base_hashes):
                             changed = True
                             i += 1
                             continue
+            elif isinstance(st, ast.If) and len(st.body) == 1 and \
+                    len(st.orelse) == 1 and all(
+                        isinstance(b, ast.Assign) and len(b.targets) == 1
+                        and isinstance(b.targets[0], ast.Name)
+                        for b in (st.body[0], st.orelse[0])) and \
+                    st.body[0].targets[0].id == st.orelse[0].targets[0].id \
+                    and isinstance(st.orelse[0].value, ast.Constant) and \
+                    not _name_occ(st.test, st.body[0].targets[0].id) and \
+                    _h12(st.orelse[0]) in base_hashes and \
+                    _h12(st.body[0]) in base_hashes:
+                # if T: x = A / else: x = <literal>   ->   x = <literal>;
+                # if T: x = A     (the pinned spelling; T does not read x)
+                pre = st.orelse[0]
+                st.orelse = []
+                stmts.insert(i, pre)
+                changed = True
+                i += 2
+                continue
             elif isinstance(st, ast.AugAssign) and \
                     _h12(st) not in base_hashes and isinstance(
                         st.target, (ast.Name, ast.Attribute)) and \
@@ -2752,6 +2812,9 @@ def normalise(model, stats=None):
                 any_change = True
             if n2b_rename_copies(f.node, keep):
                 count['N2b'] = count.get('N2b', 0) + 1
+                any_change = True
+            if n4b_ifexp_assign(f.node, _stmt_hashes(f)):
+                count['N4b'] = count.get('N4b', 0) + 1
                 any_change = True
             if n6_single_use_temps(f.node, keep):
                 count['N6'] = count.get('N6', 0) + 1
